@@ -757,6 +757,13 @@ impl Run {
                     .set("violations", unknown)
                     .set("sub_checks", J::A(self.sub_stats.clone()))
                     .set("samples", J::A(self.merged.samples.iter().take(4).cloned().collect()))
+                    .set("counters", {
+                        let mut c = J::obj();
+                        for (k, v) in self.merged.counters.iter().take(400) {
+                            c.put(k, *v);
+                        }
+                        c
+                    })
                     .set("wall_s", wall)
                     .to_string_compact()
             );
